@@ -10,11 +10,41 @@ import (
 )
 
 func init() {
+	vk.Register("C19", "reuse", runReuse)
 	vk.Register("C19", "det", runDet)
 	vk.Register("C19", "stat", runStat)
 }
 
 func TestReplay(t *testing.T) { vk.ReplayMain(t) }
+
+// TestC19Reuse: repeated runs through Reset on one counter.
+func TestC19Reuse(t *testing.T) {
+	h := vk.Start(t, "C19", "reuse")
+	slot := h.Slot()
+	tl := vk.NewTally()
+	n := 0
+	for _, size := range []int{16, 32, 64, 100} {
+		for _, mult := range []int{21, 33, 47} {
+			for rep := 0; rep < h.Pick(2, 12); rep++ {
+				c := ReuseCase{Size: size, D: size*mult + 1 + rep, M: 24}
+				o := &vk.Obs{}
+				slot.Enter(c)
+				msg := vk.Guard(func() string { return runReuse(c, o) })
+				slot.Leave()
+				if msg != "" {
+					p := h.Fail(c, msg)
+					t.Fatalf("VK-VIOLATION property=C19 leg=reuse replay=%s\n%s", p, msg)
+				}
+				tl.AddObs(o)
+				if n%9 == 0 {
+					h.Sample(c, o.NT)
+				}
+				n++
+			}
+		}
+	}
+	h.MergeTally(tl)
+}
 
 // buildStream makes a stream over the values 0..d-1 in which value v occurs
 // 1..k times, in one of three interleavings.
